@@ -129,7 +129,7 @@ Section Atom.
       else if Nat.leb (p + re_uclen_at line p) (length line) then Ok (Some (p + re_uclen_at line p)%nat) else OOB SUcLen
     | ABrk s =>
       do c <- re_ucdec line p;
-      if (c =? 0) || ((c =? 10) && newline && (nthb s 1 =? 94)) then Ok None
+      if (c =? 0) || ((c =? 10) && newline) then Ok None   (* fix 86d0c64: no bracket expression matches the newline *)
       else
         do c0 <- rdk SOther line p;
         if negb (Nat.leb (p + re_uclen_at line p) (length line)) then OOB SUcLen
